@@ -242,7 +242,7 @@ def run(ctx):
             else:
                 bad.setdefault(k, []).append((b, h, r))
     ir_of = dict(rows)
-    for k, fails in list(bad.items())[:8]:
+    for k, fails in list(bad.items())[:12]:
         body = [f"# entry point {k} does not honour the entry contract",
                 f"# IR term extracted from {core.REPO}/pkg/adapters: {ir_of[k]}",
                 "# replay: bin/check C19 replay <this file>", "case replay"]
@@ -291,8 +291,7 @@ def run(ctx):
                       "the table evaluation found no non-conforming (entry point, scenario) pair\n", no_input=True)
 
     # --- 4. dynamic validation ------------------------------------------------------------------------------------
-    if not bad:
-        dynamic(ctx, rows)
+    dynamic(ctx, rows)   # also when the table already shows violations: the real runs give a second, concrete replay
     return finish(ctx)
 
 
